@@ -11,7 +11,8 @@ use std::{
 };
 
 use super::{
-    flat::FlatIndexMetadata, AnyQuery, BuiltinIndexType, IndexReader, IndexStore, IndexWriter,
+    flat::{remap_batch, FlatIndexMetadata},
+    AnyQuery, BuiltinIndexType, IndexReader, IndexStore, IndexWriter,
     MetricsCollector, SargableQuery, ScalarIndex, ScalarIndexParams, SearchResult,
 };
 use crate::pbold;
@@ -1190,25 +1191,16 @@ impl ScalarIndex for BTreeIndex {
         mapping: &HashMap<u64, Option<u64>>,
         dest_store: &dyn IndexStore,
     ) -> Result<CreatedIndex> {
-        // Remap and write the pages
-        let mut sub_index_file = dest_store
-            .new_index_file(BTREE_PAGES_NAME, self.sub_index.schema().clone())
-            .await?;
-
-        let sub_index_reader = self.store.open_index_file(BTREE_PAGES_NAME).await?;
-        let mut reader_stream = IndexReaderStream::new(sub_index_reader, self.batch_size)
-            .await
-            .buffered(self.store.io_parallelism());
-        while let Some(serialized) = reader_stream.try_next().await? {
-            let remapped = self.sub_index.remap_subindex(serialized, mapping).await?;
-            sub_index_file.write_record_batch(remapped).await?;
-        }
-
-        sub_index_file.finish().await?;
-
-        // Copy the lookup file as-is
-        self.store
-            .copy_index_file(BTREE_LOOKUP_NAME, dest_store)
+        // Remap the entries and retrain on them: dropping the entries of deleted rows changes the page
+        // sizes, so the pages have to be re-chunked and the lookup (min / max / null count per page) rebuilt
+        let mapping = Arc::new(mapping.clone());
+        let data = self.clone().into_data_stream().await?;
+        let schema = data.schema();
+        let remapped = data.map(move |batch| {
+            remap_batch(batch?, &mapping).map_err(|err| DataFusionError::External(Box::new(err)))
+        });
+        let remapped = Box::pin(RecordBatchStreamAdapter::new(schema, remapped));
+        train_btree_index(remapped, self.sub_index.as_ref(), dest_store, self.batch_size, None)
             .await?;
 
         Ok(CreatedIndex {
